@@ -1645,11 +1645,132 @@ def case_unseekable(ctx):
         shutil.rmtree(scratch, ignore_errors=True)
 
 
+def case_streams(ctx):
+    """Real processes with unusual standard streams: file descriptor 0 closed at start (sys.stdin is None), and a terminal
+    as <stdout> for the help texts that go through $PAGER.  Same alternatives as everywhere: a complete formula, a help
+    text that is actually shown, or a clean error -- never a traceback, never status 0 with nothing."""
+    import pty
+    import subprocess as sp
+    from .. import REPO
+    from ..refmodels import c06_dimacs
+    oc.selfcheck()
+    scratch = tempfile.mkdtemp(prefix="vmon-c18s-", dir="/tmp")
+    try:
+        cnfp = os.path.join(scratch, "f.cnf")
+        dagp = os.path.join(scratch, "d.kthlist")
+        with open(cnfp, "w") as f:
+            f.write("p cnf 3 2\n1 -2 0\n2 3 0\n")
+        with open(dagp, "w") as f:
+            f.write("3\n1 : 0\n2 : 1 0\n3 : 1 2 0\n")
+        env = dict(os.environ)
+        env.pop("PYTHONPATH", None)
+        env["PYTHONPYCACHEPREFIX"] = os.path.join(tempfile.gettempdir(), "vmon-pycache-%d" % os.getuid())
+        env.pop("PYTHONDONTWRITEBYTECODE", None)
+        env["PAGER"] = "cat"
+
+        def code(tool):
+            return "import sys; sys.path.insert(0, %r); sys.argv[0] = %r; from cnfgen.clitools.%s import main; main()" % (REPO, tool, tool)
+        # ---- no standard input at all
+        runs = [("cnfgen", ["-q", "php", "3", "2"], "formula"), ("pbgen", ["-q", "php", "3", "2"], "formula"), ("cnfgen", ["-h"], "help"),
+                ("cnfgen", ["php", "-h"], "help"), ("cnfgen", ["-q", "php"], "error"), ("cnfgen", ["-q", "dimacs", cnfp], "formula"),
+                ("cnfgen", ["-q", "dimacs", cnfp, "-T", "shuffle"], "formula"), ("cnfshuffle", ["-q", "-i", cnfp], "formula"),
+                ("kthlist2pebbling", ["-q", "-i", dagp], "formula"), ("cnfgen", ["-q", "peb", dagp], "formula"),
+                ("cnfgen", ["-q", "kcolor", "2", "kthlist", dagp], "any"), ("cnfgen", ["-q", "dimacs"], "error"), ("cnfgen", ["-q", "dimacs", "-"], "error"),
+                ("cnfshuffle", ["-q"], "error"), ("kthlist2pebbling", ["-q"], "error"), ("cnfgen", ["-q", "peb", "kthlist", "-"], "error"),
+                ("pbgen", ["-q", "dimacs"], "error"), ("cnfgen", ["--tutorial"], "help"), ("cnfgen", ["--help-dag"], "help")]
+        for tool, argv, expect in runs:
+            p = sp.Popen([sys.executable, "-c", code(tool)] + argv, stdin=None, stdout=sp.PIPE, stderr=sp.PIPE, env=env, cwd=REPO,
+                         preexec_fn=lambda: os.close(0))
+            try:
+                out, err = p.communicate(timeout=60)
+            except sp.TimeoutExpired:
+                p.kill()
+                p.communicate()
+                ctx.problems.append({"kind": "closed-stdin-run-timeout", "case": ctx.case, "traceback": "%s %r" % (tool, argv)})
+                continue
+            out, err = out.decode("utf-8", "replace"), err.decode("utf-8", "replace")
+            ctx.count("closed_stdin_runs")
+            label = "%s %s started with its standard input closed" % (tool, " ".join("<file>" if t in (cnfp, dagp) else t for t in argv))
+            if oc.TRACEBACK in err:
+                ctx.violation("%s:closed-stdin:unhandled-exception" % tool, "%s: %r" % (label, err[-300:]))
+            elif p.returncode == 0:
+                if expect == "help":
+                    ok = len(out.strip()) > 40
+                elif tool == "pbgen":
+                    ok = out.lstrip().startswith("* #variable=")
+                else:
+                    try:
+                        c06_dimacs.read(out)
+                        ok = True
+                    except Exception:          # noqa: BLE001
+                        ok = False
+                if not ok:
+                    ctx.violation("%s:closed-stdin:exit-0-without-%s" % (tool, "help-text" if expect == "help" else "complete-formula"),
+                                  "%s: exit status 0 but <stdout> holds %r" % (label, out[:120]), stderr=err[:300])
+                elif expect == "error":
+                    ctx.violation("%s:closed-stdin:formula-from-nowhere" % tool, "%s: there is nothing to read, yet status 0 and %r" % (label, out[:80]))
+            elif expect in ("formula", "help"):
+                ctx.violation("%s:closed-stdin:refuses-a-request-that-needs-no-input" % tool, "%s: status %r, %r" % (label, p.returncode, err[-200:]))
+            elif any(l.startswith("p cnf") for l in out.splitlines()):
+                ctx.violation("%s:closed-stdin:formula-and-failure" % tool, "%s: status %d after writing a formula" % (label, p.returncode))
+            ctx.judged((tool, tuple(argv[:3]), "closed-stdin"), nontrivial=True, sample={"command": label, "status": p.returncode})
+        # ---- help texts with a terminal as <stdout> ($PAGER=cat shows them on that terminal)
+        for tool, argv in (("cnfgen", ["--tutorial"]), ("cnfgen", ["--help-graph"]), ("cnfgen", ["--help-bipartite"]), ("cnfgen", ["--help-dag"]),
+                           ("pbgen", ["--help-graph"]), ("pbgen", ["--help-dag"]), ("cnfgen", ["-h"]), ("cnfgen", ["php", "-h"]),
+                           ("cnfgen", ["-q", "php", "2", "1"]), ("pbgen", ["-q", "php", "2", "1"])):
+            master, slave = pty.openpty()
+            try:
+                p = sp.Popen([sys.executable, "-c", code(tool)] + argv, stdin=sp.DEVNULL, stdout=slave, stderr=sp.PIPE, env=env, cwd=REPO)
+                os.close(slave)
+                slave = None
+                shown = b""
+                import select
+                import time
+                deadline = time.time() + 60
+                while time.time() < deadline:
+                    rl, _, _ = select.select([master], [], [], 0.5)
+                    if rl:
+                        try:
+                            chunk = os.read(master, 65536)
+                        except OSError:
+                            break
+                        if not chunk:
+                            break
+                        shown += chunk
+                    elif p.poll() is not None:
+                        break
+                try:
+                    _, err = p.communicate(timeout=30)
+                except sp.TimeoutExpired:
+                    p.kill()
+                    p.communicate()
+                    ctx.problems.append({"kind": "pty-run-timeout", "case": ctx.case, "traceback": "%s %r" % (tool, argv)})
+                    continue
+            finally:
+                os.close(master)
+                if slave is not None:
+                    os.close(slave)
+            text, err = shown.decode("utf-8", "replace"), err.decode("utf-8", "replace")
+            ctx.count("terminal_stdout_runs")
+            label = "%s %s with a terminal as <stdout> (PAGER=cat)" % (tool, " ".join(argv))
+            if oc.TRACEBACK in err:
+                ctx.violation("%s:terminal-stdout:unhandled-exception" % tool, "%s: %r" % (label, err[-300:]))
+            elif p.returncode == 0 and len(text.strip()) < 20:
+                ctx.violation("%s:terminal-stdout:exit-0-with-nothing-shown" % tool, "%s: status 0, the terminal received %r, <stderr> %r"
+                              % (label, text[:80], err[:200]))
+            elif p.returncode != 0:
+                ctx.violation("%s:terminal-stdout:refuses" % tool, "%s: status %r, %r" % (label, p.returncode, err[-200:]))
+            ctx.judged((tool, tuple(argv), "pty-stdout"), nontrivial=True, sample={"command": label, "status": p.returncode, "shown_chars": len(text)})
+    finally:
+        shutil.rmtree(scratch, ignore_errors=True)
+
+
 def workload(tier, seed):
     quick = tier == "quick"
     step = 150
     yield "terminal", {}
     yield "unseekable", {}
+    yield "streams", {}
     yield "witnesses", {}          # first: the minimal command line of a mechanism becomes its replay
     n_grammar, n_mut, n_fil = (2700, 2400, 600) if quick else (33000, 33000, 6000)
     # indices depend on the seed so that another seed is another sample
